@@ -153,7 +153,7 @@ fn stat_line(stdout: &[u8], suffix: &str) -> Option<u64> {
 
 pub fn check(case: &Case) -> Verdict {
     let n = case.files.len();
-    let dir = TempDir::new("c10");
+    let dir = TempDir::fast("c10");
     for (i, f) in case.files.iter().enumerate() {
         dir.write(&fname(i), &f.0);
     }
@@ -345,7 +345,7 @@ pub fn check(case: &Case) -> Verdict {
     let want = if any { 0 } else { 1 };
     for (name, o) in [("standard", &std_out), ("-q", &quiet), ("--count", &cnt), ("-l", &lst), ("--json", &json)] {
         if o.status != Some(want) {
-            problems.push((usize::MAX, format!("{name} exits with {:?}, expected {want} ({} output in standard mode)", o.status, if any { "there is" } else { "no" })));
+            problems.push((usize::MAX - 2, format!("{name} exits with {:?}, expected {want} ({} output in standard mode)", o.status, if any { "there is" } else { "no" })));
         }
     }
     // R6: --stats totals equal the sums over files
@@ -387,6 +387,11 @@ pub fn check(case: &Case) -> Verdict {
             if *i == usize::MAX - 1 {
                 // a total: explained if some file has the shape
                 trailing_empty.iter().any(|x| *x)
+            } else if *i == usize::MAX - 2 {
+                // an exit status: under -U the count is the number of
+                // (sub)matches, so a file whose only match is the dropped
+                // trailing empty match counts as not matching at all
+                case.multiline && (0..n).all(|f| std_recs[f].is_empty() || trailing_empty[f])
             } else {
                 *i < n && trailing_empty[*i]
             }
@@ -446,7 +451,7 @@ pub fn run(pc: &PropCtx) {
     );
     pc.assume("documented mode normalisations are part of the relation: -v --count-matches = -v --count; under -U --count may equal --count-matches; -o is not compared under -U or -v");
     pc.set_shrink_iters(150);
-    let cases = pc.tier.pick(2_500, 50_000);
+    let cases = pc.tier.pick(6_000, 80_000);
     pc.run_tape("modes_agree", cases, (128, 1500), gen_case, check);
     pc.require_class("modes_agree:pattern_matches_empty", cases as u64 / 20);
     let _ = BTreeMap::<u8, u8>::new();
